@@ -701,7 +701,8 @@ impl<'a> Ctx<'a> {
 		let first_ge = evs.iter().position(|e| e.k == "ge");
 		// boundaries: before every event up to and including the first Game End; after a single Game End
 		let mut positions: Vec<usize> = (0..=first_ge.unwrap_or(evs.len())).collect();
-		if self.beh.file_end == "single" {
+		if self.beh.file_end != "none" {
+			// (after a single Game End, and after its duplicate)
 			positions.push(evs.len());
 		}
 		let l = self.db.for_version(self.built.ver[0], self.built.ver[1]);
@@ -724,8 +725,8 @@ impl<'a> Ctx<'a> {
 			}
 			variants.push((format!("multi{}", k), v));
 		}
-		// two and three unknown events after a single Game End
-		if self.beh.file_end == "single" {
+		// two and three unknown events after Game End (single or duplicated)
+		if self.beh.file_end != "none" {
 			for k in 2..=3usize {
 				let mut v = evs.clone();
 				for j in 0..k {
